@@ -82,6 +82,39 @@ def check(ctx, run):
         if ev.env.get("ignoreAllWarnings_") != 0 or ev.env.get("expectedLeaks_") != 0:
             why.append("ignore flag / expected count not reset on this exit")
         run.ob("R1", "postTestAction folded [ignore=%d expected=%d leaks=%d failures %d->%d overloaded=%d]" % (ig, exp, leaks, before, now, ov), post.site, not why, witness={"calls": kinds}, what="; ".join(why))
+    # IGNORE_ALL_LEAKS_IN_TEST / EXPECT_N_LEAKS reach "the" plugin through getFirstPlugin(): the cell it reads, folded against the
+    # constructor and the destructor of a SECOND plugin (tests create temporary plugins): the first plugin stays the first
+    ct_ = [g for g in prog.methods_of(PL) if g.kind == "ctor"]
+    dt_ = [g for g in prog.methods_of(PL) if g.kind == "dtor"]
+    gfp = prog.fn(PL + "::getFirstPlugin")
+    for g in ct_ + dt_ + [gfp]:
+        run.analysed(g)
+    FIRST, SECOND = 4100, 4200
+    hooks_ = string_hooks({PL + "::getGlobalDetector": lambda *a_: 555, DET + "::enable": lambda *a_: 0, PL + "::turnOffNewDeleteOverloads": lambda *a_: 0, PL + "::destroyGlobalDetector": lambda *a_: 0,
+                           "TestPlugin::TestPlugin": lambda *a_: 0, "TestPlugin::~TestPlugin": lambda *a_: 0})
+
+    def first_after(f_, this_, cell, flag=0):
+        env = {"this": this_, "firstPlugin_": cell, "destroyGlobalDetectorAndTurnOfMemoryLeakDetectionInDestructor_": flag}
+        env.update({q["name"]: (("str", "n") if "SimpleString" in q["ct"] else 0) for q in f_.params})
+        ev = Evaluator(prog, f_, env=env, calls=hooks_)
+        ev.pass_object = True
+        ev.heap_mode = True
+        ev.objects = True
+        ev.optional_stubs = set(hooks_)
+        try:
+            ev.run_blocks(f_.entry, max_steps=600)
+        except Unknown as u:
+            raise AnalysisBroken("C07.R1: %s cannot be folded: %s" % (f_.qn, u))
+        ev2 = Evaluator(prog, gfp, env={"firstPlugin_": ev.env.get("firstPlugin_")})
+        ev2.run_blocks(gfp.entry, max_steps=50)
+        return getattr(ev2, "ret", None)
+    for c_ in ct_:
+        got = (first_after(c_, FIRST, 0), first_after(c_, SECOND, FIRST))
+        run.ob("R1", "plugin constructor folded: the first plugin constructed becomes getFirstPlugin(), a later one does not replace it", c_.site, got == (FIRST, FIRST), witness={"first after (first ctor, second ctor)": got})
+    for d_ in dt_:
+        got = tuple(first_after(d_, SECOND, FIRST, fl_) for fl_ in (0, 1))
+        run.ob("R1", "plugin destructor folded on a plugin that is not the first one: getFirstPlugin() still answers the first plugin", d_.site, got == (FIRST, FIRST), witness={"first plugin after destroying another one": got},
+               what="" if got == (FIRST, FIRST) else "after a temporary second plugin is destroyed getFirstPlugin() answers %s: IGNORE_ALL_LEAKS_IN_TEST / EXPECT_N_LEAKS of later tests silently do nothing" % (got,))
     for fn_, fld, val in (("ignoreAllLeaksInTest", "ignoreAllWarnings_", 1), ("expectLeaksInTest", "expectedLeaks_", None)):
         f = prog.fn(PL + "::" + fn_)
         ev = Evaluator(prog, f, env=dict({"ignoreAllWarnings_": 0, "expectedLeaks_": 0}, **{q["name"]: 5 for q in f.params}))
